@@ -506,6 +506,74 @@ Proof.
   - vm_compute. reflexivity.
 Qed.
 
+(* ------------------------------------------------------------------ delivery forms: encrypted wrappers *)
+(* A provider that owns a decryption key is handed client assertions / request objects inside compact JWEs, which
+   anybody can make with the published key.  [open_assertion] is JWT.unpack's treatment of the wrapper: a wrapper one
+   of its keys decrypts, typed cty=JWT, around a JWS is that JWS (signature checked as ever); a wrapper around bare JSON
+   claims yields claims NO signature check has seen; everything else yields no claims at all.
+   The method classes as they are written ([verify_method_w]: JWSAuthnMethod._verify / RequestParam._verify on the
+   delivered object) are the method classes on the bare token [seen] puts in the wrapper's place ... *)
+Theorem C01_wrapper_methods : forall cx ep q now jdb m,
+  verify_method_w cx ep q now jdb m = verify_method cx ep (deliver q) now jdb m.
+Proof. exact verify_method_w_deliver. Qed.
+Print Assumptions C01_wrapper_methods.
+
+(* ... unsigned content - whatever does not open to a JWS - makes all three JWS-based methods give up, without an
+   effect on the replay cache, in every state of the provider ... *)
+Theorem C01_unsigned_content_refused : forall cx ep now w jdb,
+  (forall t, open_assertion w <> OSigned t) ->
+  jws_verify_w cx ep now MSecretJwt true w jdb = (VSkip, jdb)
+  /\ jws_verify_w cx ep now MPrivateJwt false w jdb = (VSkip, jdb)
+  /\ request_param_verify_w cx now w jdb = (VSkip, jdb).
+Proof. exact unsigned_content_refused. Qed.
+Print Assumptions C01_unsigned_content_refused.
+
+(* ... and ENCRYPTION ADDS NO AUTHORITY: a request accepted as X through client_secret_jwt / private_key_jwt /
+   request_param carried, for that method, an object that opens to a JWS whose signature verifies under a key the key
+   jar holds for X (HMAC: or an own symmetric key of the provider) - never bare claims, never an undecryptable or
+   untyped wrapper - and the same request with every wrapper taken off is accepted in exactly the same way. *)
+Theorem C01_wrapper_no_authority : forall cx ep q now jdb jdb' ai X,
+  client_authentication_w cx ep q now jdb = (Ok (Some ai), jdb') ->
+  ai_client ai = Some X ->
+  jws_method (ai_method ai) = true ->
+  (exists w j, used_wire q (ai_method ai) = Some w /\ open_assertion w = OSigned (Jwt j)
+     /\ j_alg j <> AlgNone /\ signed_by_client cx X j)
+  /\ client_authentication_w cx ep (unwrapped q) now jdb = (Ok (Some ai), jdb').
+Proof. exact wrapper_no_authority. Qed.
+Print Assumptions C01_wrapper_no_authority.
+
+Definition wq (a r : option wire) (cid : option pystr) : wrequest :=
+  {| w_hdr := HAbsent; w_client_id := cid; w_client_secret := None; w_access_token := None;
+     w_assertion := a; w_request := r; w_authflag := false |}.
+Definition jws3 := [MSecretJwt; MPrivateJwt; MRequestParam].
+(* a genuine ES assertion of c2 / HS assertion of c1 inside a typed wrapper the provider can open is accepted (also as
+   a request object); the bare claims of the same assertions inside a wrapper, an untyped wrapper around the genuine
+   JWS, a wrapper the provider cannot open and a wrapper inside a wrapper are not - with the whole registry tried and
+   the body naming the client, the request goes on as the PUBLIC client c2, not authenticated *)
+Example C01_nonvacuous_wrappers :
+  accepted_as (client_authentication_w wit_cx (wit_ep jws3) (wq (Some (WJwe true true (CTok (Jwt es2)))) None None) 1000 [])
+    (PS "c2") MPrivateJwt = true
+  /\ accepted_as (client_authentication_w wit_cx (wit_ep jws3) (wq (Some (WJwe true true (CTok (Jwt hs1)))) None None) 1000 [])
+    (PS "c1") MSecretJwt = true
+  /\ accepted_as (client_authentication_w wit_cx (wit_ep jws3) (wq None (Some (WJwe true true (CTok (Jwt es2)))) None) 1000 [])
+    (PS "c2") MRequestParam = true
+  /\ fst (client_authentication_w wit_cx (wit_ep jws3) (wq (Some (WJwe true false (CJson es2))) None None) 1000 [])
+     = Err UnAuthorizedClient
+  /\ fst (client_authentication_w wit_cx (wit_ep jws3) (wq None (Some (WJwe true false (CJson es2))) None) 1000 [])
+     = Err UnAuthorizedClient
+  /\ fst (client_authentication_w wit_cx (wit_ep jws3) (wq (Some (WJwe true true (CJson hs1))) None None) 1000 [])
+     = Err UnAuthorizedClient
+  /\ fst (client_authentication_w wit_cx (wit_ep jws3) (wq (Some (WJwe true false (CTok (Jwt es2)))) None None) 1000 [])
+     = Err UnAuthorizedClient
+  /\ fst (client_authentication_w wit_cx (wit_ep jws3) (wq (Some (WJwe false true (CTok (Jwt es2)))) None None) 1000 [])
+     = Err UnAuthorizedClient
+  /\ fst (client_authentication_w wit_cx (wit_ep jws3)
+            (wq (Some (WJwe true true (CJwe true true (CTok (Jwt es2))))) None None) 1000 [])
+     = Err UnAuthorizedClient
+  /\ fst (parse_request_w wit_cx (wit_ep []) (wq None (Some (WJwe true false (CJson es2))) (Some (PS "c2"))) 1000 [])
+     = Ok (PGeneric (Some (PS "c2")) (Some (PS "c2")) false).
+Proof. vm_compute. repeat split. Qed.
+
 (* TIE BY TRANSLATION: valid_client_secret as it reads in /repo/src NOW (coq/Gen/Src_token.v, regenerated every
    run by harness/py2v.py) computes the model's valid_client_secret. *)
 From Verif Require Gen.Src_token Proofs.Src_refine.
